@@ -39,6 +39,12 @@ def st_history(draw, maxn):
         ts = E.T0 + draw(st.integers(0, 6))
         if used and draw(st.integers(0, 2)) == 0:
             tags = []
+            # usually start from one own and one foreign target (the interesting mix), then add arbitrary ones
+            own = [e["id"] for e in evs if e["pubkey"] == a]
+            foreign = [e["id"] for e in evs if e["pubkey"] != a]
+            if own and foreign and draw(st.booleans()):
+                tags += [["e", draw(st.sampled_from(own))], ["e", draw(st.sampled_from(foreign))]]
+                ts = max(ts, E.T0 + 7)
             for _ in range(draw(st.integers(1, 4))):
                 k = draw(st.integers(0, 13))
                 tgt = draw(st.sampled_from(used))
